@@ -269,6 +269,14 @@ def Sys.reload (s : Sys) (newFw : Fw) : Sys :=
   else
     { s with fw := { newFw with rulesVersion := v }, reloads := s.reloads + 1 }
 
+/-- `Interface.reloadFirewall` as a whole: nothing happens unless the `firewall` section (or the certificate's
+unsafe networks) changed; a configuration that `NewFirewallFromConfig` refuses (`none`) leaves the old firewall. -/
+def Sys.reloadFirewall (s : Sys) (changed : Bool) (newFw : Option Fw) : Sys :=
+  if !changed then s
+  else match newFw with
+    | none => s
+    | some f => s.reload f
+
 /-! ### histories -/
 
 inductive Op where
